@@ -226,6 +226,54 @@ PROPS["C18"] = dict(
     trusted=COMMON_TRUST, excluded=["selection clauses: get_healthy / get_usable / round-robin (not decided)"],
 )
 
+PROPS["C19"] = dict(
+    units=["chaos"],
+    kani=[dict(name="chaos_float_facts", crate="leaves", harness="chaos_float_facts", tags=["C19"], claim="IEEE facts assumed by the chaos unit: !(1.0 < r) for r in [0,1]; x < 1.0 for x in [0,1); 1.0 > 0.0")],
+    title="Chaos injection is reproducible and bounded; injected errors skip the inner call",
+    level_text="Deductive proof (Verus) on the whole real body of Chaos::call with the f64 comparisons and the generator calls rewritten to named shims: an injected error means no inner call and no latency and the error is the "
+               "injector's error for this request; otherwise exactly one inner call with the request and its outcome unchanged; an injected latency is a whole number of milliseconds within [min_ms, max_ms] (== min_ms when "
+               "max_ms <= min_ms) and random_range is never called with an empty range; with both rates 0 no random value is drawn, nothing is slept and the call is forwarded; with error rate 1 every call fails; at most "
+               "three draws per call, in program order, from the one generator all clones share. The IEEE facts used are a loop-free Kani leaf.",
+    level_note="Determinism is by construction rather than a 2-safety proof: every nondeterministic input of the decision block enters through the two generator shims (a draw stream), every other call in the extracted body "
+               "is a contracted function (Verus rejects unknown ones), event emission is dropped (R2). StdRng::seed_from_u64 is deterministic (rand's contract). ErrorInjector implementations by contract.",
+    technique="contract-based deductive verification (Verus) with float comparisons as uninterpreted shims; Kani leaf for the IEEE facts",
+    design_ref="§6 C19",
+    assumptions=["rand: seeded StdRng is a deterministic stream; random::<f64>() in [0,1); random_range(a..=b) in [a,b]", "ErrorInjector: NoErrorInjection never injects, CustomErrorFn injects f(req) iff roll < rate", "rates in [0,1]"],
+    trusted=COMMON_TRUST, excluded=["bit-level reproducibility of rand's generator"],
+)
+
+PROPS["C14"] = dict(
+    units=["reconnect", "retry"],
+    kani=[
+        dict(name="backoff_total_and_capped", crate="backoff", harness="backoff_total_and_capped", tags=["C14"],
+             claim="capped_exponential (the text of /repo, powi abstracted): no panic / overflow and result <= max_interval for ALL Durations, attempts in usize, multipliers in [1,10], caps; the exponent saturates at i32::MAX instead of wrapping",
+             assumes=["f64::powi(b, n) for b in [1,10]: >= 1, == 1 for n == 0, never NaN, may be +inf"]),
+        dict(name="jitter_total", crate="backoff", harness="jitter_total", tags=["C14"],
+             claim="ExponentialRandomBackoff::randomize: the random range is non-empty and finite and the converted value is within Duration's range for every base delay and factor in [0,1] (no panic)",
+             assumes=["Duration::as_secs_f64 returns a finite value in [0, 2^64)", "rand::random_range(a..=b) returns a value in [a,b]", "Duration::from_secs_f64 panics only on negative, non-finite or >= 2^64 input"]),
+        dict(name="backoff_cover", crate="backoff", harness="backoff_cover", tags=["C14"], claim="vacuity guard: cap reached / below cap / attempt beyond i32::MAX are all reachable under the harness assumptions"),
+    ],
+    title="Backoff delays are total, monotone and capped",
+    level_text="Kani (CBMC), loop-free harnesses over the FULL input domain on the functions extracted from /repo on every run (capped_exponential, ExponentialRandomBackoff::randomize): total, never above max_interval, "
+               "exponent saturates, jitter never panics. Verus: ReconnectPolicy::delay_for_attempt and RetryPolicy::next_backoff delegate to exactly the configured interval function for this attempt.",
+    level_note="f64::powi is abstracted by an assumed contract (CBMC's own model costs minutes); 'equal to initial x multiplier^attempt below the cap' is the extracted text itself; MONOTONICITY in the attempt number is NOT decided: "
+               "it needs IEEE monotonicity of x*m, of from_secs_f64 and of powi in the exponent — all three were tried as Kani leaves and did not close in 20 min, they are named assumptions, not obligations.",
+    technique="Kani function-level proofs (loop-free, full domain) on mechanically extracted functions; Verus for the delegation",
+    design_ref="§6 C14",
+    assumptions=["powi contract", "IEEE-754 rounding is monotone (for the monotonicity clause, which is therefore not claimed)"],
+    trusted=["Kani 0.68 / CBMC 6.11 bit-precise float model"] + COMMON_TRUST,
+    excluded=["monotone in the attempt number (named IEEE assumptions; not decided)", "jittered value within +-factor of the base AFTER conversion rounding (only the range handed to the generator is checked)"],
+)
+for _p, _h in (("C04", [dict(name="ratio_in_unit_interval", crate="leaves", harness="ratio_in_unit_interval", tags=["C04"], claim="failure_count as f64 / total_count as f64 lies in [0,1] for failure_count <= total_count, total_count > 0 (all usize)"),
+                        dict(name="ratio_of_zero_failures_is_zero", crate="leaves", harness="ratio_of_zero_failures_is_zero", tags=["C04"], claim="0 as f64 / total as f64 == 0.0: a positive threshold never trips on zero failures")]),
+               ("C13", [dict(name="aimd_scale_never_increases", crate="leaves", harness="aimd_scale_never_increases", tags=["C13", "C08"], tier="thorough",
+                             claim="(current as f64 * decrease_factor) as usize <= current for current <= 2^53, factor in [0,1] (the contract Verus assumes for the lifted leaf)")]),
+               ("C02", [dict(name="weighted_lt_limit_implies_room", crate="leaves", harness="weighted_lt_limit_implies_room", tags=["C02"],
+                             claim="(previous as f64 * w) + current as f64 < limit as f64 implies current < limit, for all usize and w in [0,1] (the contract Verus assumes for the lifted admit leaf)")]),
+               ("C15", [dict(name="two_buckets_idle", crate="leaves", harness="two_buckets_idle", tags=["C15"], tier="thorough", timeout=1200,
+                             claim="(elapsed_secs / bucket_secs) as u32 >= 2 whenever elapsed >= 2*bucket (idle clause of the sliding counter)")])):
+    PROPS[_p]["kani"] = PROPS[_p].get("kani", []) + _h
+
 NOT_APPLICABLE = {
     "C12": "not built: hedge's body is a tokio::select! loop over spawned tasks; needs the select!/spawn rewrite R17 (DESIGN §7); nothing weaker is claimed in its place",
 }
